@@ -41,7 +41,13 @@ pub fn poisson_approximation_impl(
         }
     }
     (0..n_peaks).for_each(|i| {
-        let mz = mass_charge_ratio(mass + (i as f64 * NEUTRON_SHIFT), charge, PROTON);
+        let neutral = mass + (i as f64 * NEUTRON_SHIFT);
+        // charge 0 means neutral masses, as in the other pattern generators
+        let mz = if charge != 0 {
+            mass_charge_ratio(neutral, charge, PROTON)
+        } else {
+            neutral
+        };
         let peak = Peak {
             mz,
             intensity: intensities[i] / total,
